@@ -11,6 +11,7 @@ import vlib
 KEY_SPLIT = "handle-split-by-late-revalidation"
 KEY_CUT = "handle-split-by-batch-cut"
 KEY_AFF = "stale-blocksbynode-after-affinity-move"
+KEY_ZOMBIE = "stale-allocationsbynode-after-node-change"
 
 # order of the booleans in Spec.diag_case
 PARTS = ["release", "grace", "handles", "lastblock+node-cleanup", "grace-dump", "books-allocs", "books-bynode", "books-byhandle",
@@ -59,13 +60,18 @@ def extra(ctx, lines):
             out.append((dict(kind="implementation-check", key=KEY_CUT, observed=bc,
                              note="garbageCollectKnownLeaks with 10001 confirmed leaks: the 10000-entry batch cut leaves one address "
                                   "of a handle out of the ReleaseIPs call that releases the handle's other addresses"), ""))
+        zp = l.get("zombie")
+        if zp and zp.get("stale_entries", 0) > 0:
+            out.append((dict(kind="implementation-check", key=KEY_ZOMBIE, observed=zp,
+                             note="an allocation re-allocated in place with a different node attribute and then freed leaves its "
+                                  "allocationsByNode entry behind; the next sync releases an address no block seen contains"), ""))
     return out
 
 
 CFG = dict(
     imports=["From Verif.C23 Require Import Model Spec.", "Open Scope N_scope."],
     checker="check_case",
-    n=dict(quick=150, thorough=8000),
+    n=dict(quick=110, thorough=8000),
     shard=25,
     classify=classify,
     extra=extra,
@@ -80,7 +86,10 @@ CFG = dict(
          "arbitrary points; every input is applied synchronously to the REAL IPAMController (handleUpdate / syncIPAM) with a "
          "recording IPAM client, the fake clientset, real informer indexers and a virtual clock (testing/synctest); observed "
          "per sync: ReleaseIPs options (address, handle, sequence number), ReleaseBlockAffinity and ReleaseHostAffinities "
-         "calls, full bookkeeping dump; plus one full-size run of the 10000-entry batch cut (10001 confirmed leaks).  "
+         "calls, full bookkeeping dump; 35% of the syncs run with an injected ReleaseIPs failure that releases a random subset "
+         "(the sync then ends after the collector; leaks roll over); 5 scripted histories (non-Kubernetes node, tunnel "
+         "address rolled over a failed release with the node re-registering); plus one full-size run of the 10000-entry "
+         "batch cut (10001 confirmed leaks) and one probe of the per-node index after an in-place re-allocation to another node.  "
          "non-trivial = some allocation became a leak candidate or something was released; distinct by the input history",
     trusted=["Coq 8.16.1 kernel + vm_compute",
              "hand-written model coq/theories/C23/Model.v tied to kube-controllers/pkg/controllers/node/ipam.go and "
